@@ -668,4 +668,31 @@ def keyStepFresh (env : Env) (net : Network) (kind : KeyKind) (secC secU : Bytes
 
 def findNet (name : String) : Option Network := all.find? (fun n => n.symbol = name ∨ n.module = name)
 
+/-! ### the rest of `ContractAPI` / `Contract` / `registry` -/
+
+/-- `ContractAPI.for_nulldata(data)` -/
+def forNulldata (data : Bytes) : Except Err Bytes := forInfo (.nulldata data)
+
+/-- `ContractAPI.for_nulldata_push(data)`: `compile("OP_RETURN [<hex>]")` — the data as ONE push -/
+def forNulldataPush (data : Bytes) : Except Err Bytes := compileText ("OP_RETURN [" ++ b2h data ++ "]")
+
+/-- `ContractAPI.for_p2s(underlying_script)` / `for_p2s_wit` -/
+def contractForP2s (env : Env) (script : Bytes) : Except Err Bytes := forInfo (.p2sh (env.hash160 script))
+def contractForP2sWit (env : Env) (script : Bytes) : Except Err Bytes := forInfo (.p2shWit (env.sha256 script))
+
+/-- `Contract.override_network(other)`: `other.contract.new(self.info())` — the same info on the other network:
+its `script()` and `address()` there -/
+def overrideContract (env : Env) (other : Network) (i : Info) : Except Err Bytes × AddrOut :=
+  (contractScript i, contractAddress env other i)
+
+def lowerAscii (s : String) : String := String.ofList (s.toList.map Char.toLower)
+
+/-- `registry.network_for_netcode(symbol)` with the default search path: the module `pycoin.symbols.<lower>` must
+exist and its network's symbol, upper-cased, must be the upper-cased argument; otherwise `ValueError` (`none`) -/
+def networkForNetcode (symbol : String) : Option Network :=
+  all.find? fun n => n.module = lowerAscii symbol && upperAscii n.symbol = upperAscii symbol
+
+/-- `registry.network_codes()`: one upper-cased symbol per module, in module order -/
+def networkCodes : List String := all.map fun n => upperAscii n.symbol
+
 end Pycoin.Addr
